@@ -17,7 +17,8 @@ BACKENDS = {'ht': 'dynamic-hash-table', 'ia': 'index-array'}
 NJOBS = int(os.environ.get('VERIF_JOBS', str(os.cpu_count() or 4)))
 
 
-TRAIT_FINDING = {'negstep': 'C01-negative-step-execution-space', 'ia-nonrange-param': 'C01-index-array-non-range-parameter'}
+TRAIT_FINDING = {'negstep': 'C01-negative-step-execution-space', 'ia-nonrange-param': 'C01-index-array-non-range-parameter',
+                 'keyprint-order': 'C23-key-print-declaration-order', 'keyprint-derived': 'C23-key-print-derived-parameter'}
 
 
 def known_ids():
@@ -28,10 +29,10 @@ def known_ids():
         return set()
 
 
-def finding_for(prog, backend):
+def finding_for(prog, backend, keyprint=False):
     """id of the recorded finding that covers failures of this (program, back-end), or None."""
     ids = known_ids()
-    for t in sorted(prog.traits(backend)):
+    for t in sorted(prog.traits(backend, keyprint)):
         if TRAIT_FINDING[t] in ids:
             return TRAIT_FINDING[t]
     return None
@@ -168,6 +169,9 @@ class Runner:
                 continue
             if rc == 1:
                 self._violations(r.stdout, j)
+            elif rc != 0 and j.get('known'):
+                ctx.known_finding('%s %s: process failed outside a run (exit %d): %s' % (j['known'], j['label'], rc, (r.stderr or '').strip().splitlines()[-1][:200] if (r.stderr or '').strip() else ''))
+                continue
             elif rc != 0:
                 ctx.broken.append('%s: exit status %d\n%s' % (j['label'], rc, (r.stdout[-600:] + r.stderr[-1500:])))
                 continue
@@ -215,7 +219,7 @@ class Runner:
                         print(l2)
 
 
-def make_jobs(progs, exes, oracle, quick, hs_startup, free_startup, threads, reps, full_upto, maxdev, hs_deadline, free_deadline, extra=()):
+def make_jobs(progs, exes, oracle, quick, hs_startup, free_startup, threads, reps, full_upto, maxdev, hs_deadline, free_deadline, extra=(), tag=''):
     """-> (hsched jobs, free-running jobs, jobs of programs covered by a recorded finding)"""
     hs_jobs, free_jobs, kn_jobs = [], [], []
     for be, exe in exes.items():
@@ -228,18 +232,18 @@ def make_jobs(progs, exes, oracle, quick, hs_startup, free_startup, threads, rep
             common = ['--backend', be, '--oracle', str(oracle)] + list(extra)
             j = dict(exe=exe, args=['--mode', 'hs', '--programs', p.name, '--startup', hs_startup, '--full-upto', str(full_upto), '--maxdev', str(maxdev),
                                     '--maxruns', '60000' if quick else '2000000', '--deadline', str(hs_deadline)] + common,
-                     label='%s-%s-hs' % (p.name, be), known=kn, timeout=hs_deadline + 120)
+                     label='%s%s-%s-hs' % (tag, p.name, be), known=kn, timeout=hs_deadline + 120)
             (kn_jobs if flagged else hs_jobs).append(j)
             if not flagged:
                 normal.append(p.name)
             elif not quick or be == 'ht':
                 kn_jobs.append(dict(exe=exe, args=['--mode', 'free', '--programs', p.name, '--scheds', 'lfq', '--threadlist', '2', '--reps', '1', '--startup', '0'] + common,
-                                    label='%s-%s-free' % (p.name, be), known=kn, limit=1.5, timeout=120))
+                                    label='%s%s-%s-free' % (tag, p.name, be), known=kn, limit=1.5, timeout=120))
         for s in SCHEDS:
             for t in threads:
                 free_jobs.append(dict(exe=exe, args=['--mode', 'free', '--programs', ','.join(normal), '--sched', s, '--threads', str(t), '--reps', str(reps),
                                                      '--startup', free_startup, '--deadline', str(free_deadline), '--backend', be, '--oracle', str(oracle), '--spin', '0' if t == 1 else '30'] + list(extra),
-                                      label='free-%s-%s-%d' % (be, s, t), timeout=free_deadline + 300))
+                                      label='%sfree-%s-%s-%d' % (tag, be, s, t), timeout=free_deadline + 300))
     return hs_jobs, free_jobs, kn_jobs
 
 
